@@ -156,6 +156,11 @@ def write_evidence(prop, tier, seed, report, wall, violations, known_hits, engin
             "skipped_build_arms": engine.prog.skipped_arms,
             "engine_build_s": round(engine.build_time, 3),
         }
+        if getattr(engine, "_anchors", None) is not None:
+            try:
+                cov["anchors_resolved_by_role"] = {k: (v if isinstance(v, str) else v[:4]) for k, v in engine._anchors.summary_resolved().items()}
+            except Exception:
+                pass
     cov.update(report.info)
     if extra:
         cov.update(extra)
